@@ -102,7 +102,7 @@ class Run:
         self.ids = {v: k for k, v in names.items()}
         self.probes = Probes()
         ctx = {'p': self.probes.p, 'g': self.probes.g, 'c': self.probes.c, 'tick': self.probes.tick,
-               'dg': self.probes.dg, 'dc': self.probes.dc}
+               'dg': self.probes.dg, 'dc': self.probes.dc, 'NAMES': tuple(names[i] for i in sorted(names))}
         self.base = epoch       # the run starts at a large absolute time (float resolution, tolerances)
         if epoch:
             from sismic.clock import SimulatedClock
@@ -161,7 +161,7 @@ class Run:
         it = self.interp
         if it is None:
             return {'conf': [], 'final': False, 'time': 0, 'x': 0}
-        extra = len(set(it.context) - {'p', 'g', 'c', 'tick', 'x', 'box', 'lst', 'dg', 'dc'})     # nothing else may appear
+        extra = len(set(it.context) - {'p', 'g', 'c', 'tick', 'x', 'box', 'lst', 'dg', 'dc', 'NAMES'})     # nothing else may appear
         return {'conf': sorted(self.ids[n] for n in it.configuration if n not in self.host_only), 'final': bool(it.final),
                 'time': it.time - self.base, 'x': it.context.get('x', -1) + 1000 * extra}
 
